@@ -1,6 +1,6 @@
 (* C01 — the interpolant reproduces the loaded model values at every loaded point.  Statements only. *)
 From TV Require Import Common.Prelude Model.IndexSets Model.GridState Model.RuleLocal Model.Selection Model.Hier Model.LocalGrid.
-From TV Require Import Proofs.IndexSetsProofs Proofs.GridStateProofs Proofs.HierProofs Proofs.LocalGridProofs.
+From TV Require Import Model.SequenceGrid Proofs.IndexSetsProofs Proofs.GridStateProofs Proofs.HierProofs Proofs.LocalGridProofs Proofs.SequenceProofs.
 From Coq Require Import QArith Qcanon Ring.
 Local Open Scope Z_scope.
 
@@ -38,8 +38,15 @@ End AnyRing.
    extracted model on every grid of the implementation that the check visits. *)
 Theorem c01_localpoly_certified : forall r order pts (vals : list (idx * Qc)),
   hier_cert r order pts = true ->
-  forall i, In i (by_level r pts) -> evalAt r order pts vals (node_of r i) = assoc vals i.
+  forall i, In i (by_level r pts) -> evalAt r order pts vals (LocalGrid.node_of r i) = assoc vals i.
 Proof. exact localgrid_reproduces. Qed.
+
+(* Sequence grids: for EVERY dimension, EVERY duplicate-free index set (lower or not) and EVERY sequence of pairwise
+   distinct one-dimensional nodes the Newton-form interpolant equals the supplied value at every node *)
+Theorem c01_sequence : forall (xs : nat -> Qc), (forall a b : nat, a <> b -> xs a <> xs b) ->
+  forall (d : nat) (Theta : list mindex), NoDup Theta -> (forall t, In t Theta -> length t = d) ->
+  forall (v : mindex -> Qc) i, In i Theta -> seq_interp xs v Theta (SequenceGrid.node_of xs i) = v i.
+Proof. exact sequence_reproduces. Qed.
 
 (* the value used at a node is the value supplied for that node, for every load/refine/merge history (from C07) *)
 Theorem c01_values_follow_their_points : forall (V : Type) (vzero : V) (d : nat) st vals,
@@ -64,4 +71,5 @@ Proof. vm_compute. split; reflexivity. Qed.
 Print Assumptions c01_hier_reproduces.
 Print Assumptions c01_interp_at_node.
 Print Assumptions c01_localpoly_certified.
+Print Assumptions c01_sequence.
 Print Assumptions c01_values_follow_their_points.
